@@ -336,6 +336,8 @@ def check_step(E, outcome, exc, env, pre, C, M, params, log, rec, old_records, n
         if not reset_ok:
             E.prove(C.rho <= pre['rho'], 'C18:step:rho-never-increases-within-a-run')
         E.prove(E.all([M.eval_num[k] <= C.nx for k in range(M.npt())]), 'C03:step:eval-numbers-bounded-by-nx')
+        E.prove(2 <= M.npt() and M.npt() <= params("restarts.max_npt") and M.num_pts <= params("restarts.max_npt"),
+                'C18:step:number-of-points-between-2-and-the-allowed-maximum')
         thr = M.min_objective_value()
         if not xr:
             E.prove(E.all([E.no(M.objval[k] < post_obj) for k in range(M.npt())]), 'C04:step:best-value-is-a-lower-bound-of-all-stored-values')
@@ -453,6 +455,8 @@ def step_harnesses(tier, seed, pid):
         combos.append(D + ('noise', False, False, 2, None))
         if pid in ('C03', 'C04'):
             combos.append(D + ('soft-restarts-2geom', False, False, 'one', None))
+        if pid in ('C18', 'C03', 'C02'):
+            combos.append(D + ('soft-restarts-increase-npt', False, False, 'one', None))
         if pid in ('C08', 'C10'):
             combos.append(D + ('default', False, True, 'one', None))
         if pid == 'C08':
